@@ -32,7 +32,7 @@ StepDeliver(x) ==
     /\ pos' = IF x.acc THEN [q \in DOMAIN pos \cup {x.p} |-> IF q = x.p THEN x.j ELSE pos[q]] ELSE pos
     /\ IF x.acc THEN ch' = Handle(ch, e) /\ win' = Append(win, e) /\ queue' = Append(queue, want[1])
        ELSE UNCHANGED <<ch, win, queue>>
-    /\ UNCHANGED <<batches, hist, drift, rb, tr>>
+    /\ UNCHANGED <<batches, hist, drift, rb, tr, slice>>
 
 StepSwap(x) ==
     LET b == BatchOf(x.b)
@@ -47,11 +47,12 @@ StepSwap(x) ==
     /\ drift' = IF Cardinality(drift) >= 60 THEN drift ELSE IF Listed(b, win) /\ Described(b, win) /\ Chained(nrb, k) /\ b # ch THEN drift \cup {V("BatchDiffers", ToString(b))} ELSE drift
     /\ rb' = nrb
     /\ ch' = NextCh(ch) /\ win' = <<>>
-    /\ UNCHANGED <<batches, queue, hist, pos, tr>>
+    /\ UNCHANGED <<batches, queue, hist, pos, tr, slice>>
 
 StepReset(x) ==
     /\ bad' = bad
     /\ ch' = EmptyCh(0, 0) /\ win' = <<>> /\ rb' = <<>> /\ pos' = <<>> /\ tr' = x.id /\ queue' = <<>>
+    /\ slice' = x.slice
     /\ UNCHANGED <<batches, hist, drift>>
 
 (* totals of the queue items at the end of an execution *)
@@ -70,7 +71,7 @@ TraceNext ==
          [] x.ev = "Reset" -> StepReset(x)
          [] x.ev = "Counts" -> StepCounts(x)
 
-TraceInit == Init /\ l = 1 /\ bad = {} /\ drift = {} /\ rb = <<>> /\ pos = <<>> /\ tr = "none"
+TraceInit == Init /\ slice = FALSE /\ l = 1 /\ bad = {} /\ drift = {} /\ rb = <<>> /\ pos = <<>> /\ tr = "none"
 TraceSpec == TraceInit /\ [][TraceNext]_tvars
 Result == l = Len(Trace) + 1 => PrintT(<<"RESULT", ToJson([n |-> l - 1, bad |-> bad, drift |-> drift])>>)
 =============================================================================
